@@ -1,4 +1,4 @@
-import NomtModel.Store.GenFnCheck
+import NomtModel.Store.GenFnCheck3
 /-!
 # C16 (topic: translated functions — page arithmetic of the on-disk formats)
 
@@ -39,5 +39,29 @@ theorem T16_fn_needed_pages (v : Nat) (h : v < 2 ^ 48) :
 example : GenFn.total_needed_pages 61381 = some 16 ∧ GenFn.total_needed_pages 61380 = some 15 ∧
     GenFn.branch_body_size 200 1000 100 = some 750 ∧ GenFn.expected_file_len 64000 = some ((16 + 64000) * 4096) ∧
     GenFn.first_chunk_mask 8 = none ∧ GenFn.last_chunk_mask 0 64 0 = none := by decide
+
+/-- T16.fn-6 `PageDiff::{changed, set_changed, set_cleared, cleared, count, assert_not_cleared}` of the CURRENT source (the two `u64`
+words of `changed_nodes` passed as arguments; a `&mut self` method returns the new words) are the mirrors of `Store/PageDiffModel.lean`
+for ALL words and slots — same values, same panic sites (`changed_nodes[word]` out of bounds, `assert!(slot_index < NODES_PER_PAGE)`) -/
+theorem T16_fn_page_diff (d : Wal.PageDiff) (slot : Nat) :
+    GenFn.pd_changed d.w0 d.w1 slot = GenFnCheck.outOpt (d.changedM slot) ∧
+    GenFn.pd_set_changed d.w0 d.w1 slot = (GenFnCheck.outOpt (d.setChanged slot)).map (fun d' => (d'.w0, d'.w1)) ∧
+    GenFn.pd_set_cleared d.w0 d.w1 = some ((d.setCleared).w0, (d.setCleared).w1) ∧ GenFn.pd_cleared d.w0 d.w1 = some d.cleared ∧
+    GenFn.pd_assert_not_cleared d.w0 d.w1 = (if d.w1 &&& Wal.CLEAR_BIT = 0 then some () else none) ∧
+    GenFn.pd_count d.w0 d.w1 = some d.count :=
+  ⟨GenFnCheck.pd_changed_eq d slot, GenFnCheck.pd_set_changed_eq d slot, (GenFnCheck.pd_cleared_eq d).1, (GenFnCheck.pd_cleared_eq d).2.1,
+   (GenFnCheck.pd_cleared_eq d).2.2, GenFnCheck.pd_count_eq d⟩
+
+/-- T16.fn-7 one step of `FastIterOnes` (`match self.0.trailing_zeros() { 64 => None, x => { self.0 &= !(1 << x); Some(x) } }`) of the
+current source is the step of the mirror `fastIterOnes`: the lowest set bit, which is erased -/
+theorem T16_fn_fast_iter_ones_next (w : Nat) :
+    GenFn.fast_iter_ones_next w =
+      some (if Wal.PageDiff.trailingZeros w = 64 then (none, w)
+            else (some (Wal.PageDiff.trailingZeros w), w &&& (Wal.U64_MAX - 2 ^ Wal.PageDiff.trailingZeros w))) :=
+  GenFnCheck.fast_iter_ones_next_eq w
+
+example : GenFn.pd_set_changed 0 (2 ^ 63) 64 = some (0, 1) ∧ GenFn.pd_set_changed 0 0 126 = none ∧ GenFn.pd_changed 5 0 2 = some true ∧
+    GenFn.pd_changed 5 0 128 = none ∧ GenFn.pd_count 7 (2 ^ 63) = some 4 ∧ GenFn.fast_iter_ones_next 12 = some (some 2, 8) ∧
+    GenFn.fast_iter_ones_next 0 = some (none, 0) ∧ GenFn.pd_assert_not_cleared 0 (2 ^ 63) = none := by decide
 
 end Nomt.C16
